@@ -19,6 +19,7 @@ def check(ctx):
     ctx.explanation += (" R10 the delivery bundle: queues drained to their end with the registry filtered in place, closed = closed and empty, "
                         "stale sets kept unless cancelable, shared sets fanned out to every parent, one sampling filter at the choke point, a scope "
                         "records iff any parent is sampled, setting a local parent opens a scope, no-op only without a recording parent.")
+    ctx.explanation += (' Round 5: R2 also -- GlobalCollect::commit_collect sends its CommitCollect on every path.')
     ctx.not_decided = ("delivery for every interleaving of producer pushes with the sequential drain; the 'about one "
                        "report interval' latency; memory ordering inside rtrb; loss when the ring is full (C09).")
     facts = ctx.facts("E")
